@@ -1,7 +1,8 @@
 /-
   C09 — local-Clifford equivalence of graph states is decided correctly, constructively.
 
-  Property theorems only (helper lemmas live in Proofs/GraphOps.lean, Proofs/LC.lean and Proofs/LCSeq{Step,Loop,Term}.lean).
+  Property theorems only (helper lemmas live in Proofs/GraphOps.lean, Proofs/LC.lean, Proofs/LCSeq{Step,Loop,Term}.lean and
+  Proofs/LC{Comp,Block,Repair}.lean).
 
   What is proved here for every size n and every input (Tier A of DESIGN §4):
     1. local complementation toggles exactly the pairs of distinct neighbours and is an involution; both implementations
@@ -24,6 +25,19 @@
        Theorem 3 for graph states, both directions) and `decides_lc_equivalence_off_the_shortcut`: the answer is right
        on every run except a `no` on the pair-sum / random paths (D14; `decides_lc_equivalence_refuted`).
   No part of the "same LC orbit" claim is cited any more.
+    8. The repair of D14 (section 5; handoff/repairs/d14; helper lemmas in Proofs/LC{Comp,Block,Repair}.lean): the repaired
+       `is_lc_equivalent` (`isLcEquivalentR`) compares the connected components of the two graphs and runs the unchanged
+       algorithm (`isLcEquivalent`, now `_is_lc_equivalent_component`) on every induced pair.  Proved for every n:
+       `_connected_components` returns the reachability classes; components are an invariant of the LC orbit
+       (`components_are_lc_invariant`); a vector is a valid `Q` of the whole pair iff every restriction is a valid `Q` of the
+       induced pair (`block_diagonal_solution_iff`); every `yes` is right (`repaired_yes_means_same_orbit`); a `no` is right
+       when the partitions differ or off the shortcut in the failing component
+       (`decides_lc_equivalence_repaired_off_the_shortcut`, which now covers the witnesses of D14: `repaired_2K2_yes`); and
+       the decision statement holds in deterministic mode relative to exactly one hypothesis, the completeness of the pair-sum
+       shortcut on *connected* graphs (`decides_lc_equivalence_repaired_partial`,
+       `shortcut_complete_on_connected_statement` — a claim of the paper, tested exhaustively for connected n ≤ 6, not proved).
+  `isLcEquivalent` is the model of `is_lc_equivalent` while the repository is unrepaired and of `_is_lc_equivalent_component`
+  afterwards; sections 2–4 are about it in both readings.
 -/
 import GraphiqModel.Proofs.LC
 import GraphiqModel.Proofs.LCSeqTerm
